@@ -79,9 +79,14 @@ func VerifInodeAndSizeLimits() {
 		tooBigSeen = verifrt.Or(tooBigSeen, verifrt.And(maxSize > 0, sz > int64(maxSize)))
 		return inventory.Inventory{}, nil
 	}
+	// a second and third extractor require the same files ("any extractor")
+	ex2 := fake.NewExtractor("y", func(string) bool { return true })
+	ex2.OnExtract = ex.OnExtract
+	ex3 := fake.NewExtractor("z", func(p string) bool { return p == "a.pkg" })
+	ex3.OnExtract = ex.OnExtract
 	col := &collector{}
 	_, _, err := filesystem.Run(context.Background(), &filesystem.Config{
-		Extractors:  []filesystem.Extractor{ex},
+		Extractors:  []filesystem.Extractor{ex, ex2, ex3},
 		ScanRoots:   []*scalibrfs.ScanRoot{{FS: fsys}},
 		Stats:       col,
 		MaxInodes:   maxInodes,
